@@ -180,7 +180,7 @@ impl Prop for C01 {
                 0 => (3, 2),
                 1 => (1, 1),
                 2 => (r.range(1, 9), r.range(1, 9)),
-                _ => (gen_n(r, 64), gen_n(r, 64)),
+                _ => (gen_n(r, 1000), gen_n(r, 1000)),
             };
             let stalled = rep % 2 == 1 || r.chance(0.3);
             let need_pos = matches!(outer, K::Drawdown | K::LnReturn);
